@@ -104,16 +104,22 @@ func Build(invocations []invocation.Invocation, receipts []receipt.AnyReceipt) (
 			Keys:   make([]string, 0, len(receipts)),
 			Values: make(map[string]ipld.Link, len(receipts)),
 		}
-		for _, receipt := range receipts {
-			err := blockstore.WriteInto(receipt, bs)
+		for _, rcpt := range receipts {
+			err := blockstore.WriteInto(rcpt, bs)
 			if err != nil {
 				return nil, err
 			}
 
-			key := receipt.Ran().Link().String()
+			// the report is keyed by the invocation the receipt names, which
+			// need not be embedded in the receipt
+			ran := receipt.RanLink(rcpt)
+			if ran == nil {
+				return nil, fmt.Errorf("receipt %s does not name its invocation", rcpt.Root().Link())
+			}
+			key := ran.String()
 			report.Keys = append(report.Keys, key)
 			if _, ok := report.Values[key]; !ok {
-				report.Values[key] = receipt.Root().Link()
+				report.Values[key] = rcpt.Root().Link()
 			}
 		}
 	}
